@@ -85,10 +85,17 @@ class C15(Plugin):
         import html5lib
         if case["k"] == 0:
             from html5lib.filters.inject_meta_charset import Filter
-            out = list(Filter([from_json(t) for t in case["toks"]], case["enc"]))
+            f = Filter([from_json(t) for t in case["toks"]], case["enc"])
+            out = list(f)
             for t in out:
                 t.setdefault("namespace", None)
-            return enc_tokens(out)
+            first = enc_tokens(out)
+            # the same filter object iterated again (its source now holds the rewritten metas): the same stream
+            again = list(f)
+            for t in again:
+                t.setdefault("namespace", None)
+            self._second_same = enc_tokens(again) == first
+            return first
         from html5lib.serializer import HTMLSerializer
         doc = html5lib.parse(case["src"], treebuilder="dom")
         walker = html5lib.getTreeWalker("dom")
@@ -143,6 +150,8 @@ class C15(Plugin):
         return [enc2, same, b[:120].decode("latin-1")]
 
     def oracle(self, case, out):
+        if case["k"] == 0 and not getattr(self, "_second_same", True):
+            return [("second-iteration-differs", "")]
         if case["k"] != 1 or out[0] == "encode-error":
             return []
         import webencodings
